@@ -4,10 +4,18 @@
 
   Full statement (goal): `f.inv → LiveArgs f op → (step f op).2 = .err e → (step f op).1 = f`, and
   `(step f op).2 = .panic →` op is a documented element-only accessor on a non-element.
-  Proved so far: every refusal produced by the argument checks (which the Rust performs before
-  it touches the arena) leaves the state untouched.
+  Proved: every refusal produced by the argument checks (which the Rust performs before it
+  touches the arena) leaves the state untouched, and for ALL forests satisfying the invariant
+  nothing else can go wrong after the checks: no late `NodeError`, no panic (apart from the
+  documented element-only accessors on a non-element), `corrupt` never set (the indextree
+  primitives are only used inside their list semantics).  `Forest.C06Clauses f r` bundles the three
+  clauses for one call; `C06_<op>` proves them, `C06_<op>_atomic`, `C06_no_panic_<op>` and
+  `C06_corrupt_unreachable_<op>` are the separate statements.  The proofs are in
+  `Lemmas/Fatom*.lean` and only use the weak invariant `Forest.W` (handles distinct and below
+  `next`, only elements and documents have children) — except `element_unwrap`, whose `unwrap`
+  on `last_child` needs the child ordering of the full invariant.
 -/
-import XotModel.Lemmas.ForestBasic
+import XotModel.Lemmas.FatomAll
 
 namespace XotModel.Props
 open XotModel
@@ -62,5 +70,389 @@ theorem C06_unwrap_refused_parentless (f : Forest) (a c : Nat)
     (he : f.isElement a = true) (hc : f.firstChild a = some c) (hp : f.parent? a = none) :
     f.elementUnwrap a = (f, .err .invalidOperation) := by
   simp [Forest.elementUnwrap, he, hc, hp]
+
+/-! ## After the checks nothing can go wrong (all forests satisfying the invariant) -/
+
+
+/-- `append`: refused by the argument checks with the forest unchanged, or carried out; the indextree `checked_*` call cannot be refused (no late `NodeError`), nothing panics, `corrupt` stays false. -/
+theorem C06_append (f : Forest) (p c : Nat) (hi : f.Inv) (_hp : f.isLive p = true) (_hc : f.isLive c = true) :
+    Forest.C06Clauses f (f.append p c) :=
+  (Forest.append_outcome hi.toW p c).clauses hi.notCorrupt
+
+theorem C06_append_atomic (f : Forest) (p c : Nat) (e : XotError) (hi : f.Inv) (_hp : f.isLive p = true) (_hc : f.isLive c = true)
+    (h : (f.append p c).2 = .err e) : (f.append p c).1 = f :=
+  (C06_append f p c hi _hp _hc).atomic e h
+
+theorem C06_no_panic_append (f : Forest) (p c : Nat) (hi : f.Inv) (_hp : f.isLive p = true) (_hc : f.isLive c = true) :
+    (f.append p c).2 ≠ .panic :=
+  (C06_append f p c hi _hp _hc).noPanic
+
+theorem C06_corrupt_unreachable_append (f : Forest) (p c : Nat) (hi : f.Inv) (_hp : f.isLive p = true) (_hc : f.isLive c = true) :
+    (f.append p c).1.corrupt = false :=
+  (C06_append f p c hi _hp _hc).notCorrupt
+
+/-- `prepend`: refused by the argument checks with the forest unchanged, or carried out; the indextree `checked_*` call cannot be refused (no late `NodeError`), nothing panics, `corrupt` stays false. -/
+theorem C06_prepend (f : Forest) (p c : Nat) (hi : f.Inv) (_hp : f.isLive p = true) (_hc : f.isLive c = true) :
+    Forest.C06Clauses f (f.prepend p c) :=
+  (Forest.prepend_outcome hi.toW p c).clauses hi.notCorrupt
+
+theorem C06_prepend_atomic (f : Forest) (p c : Nat) (e : XotError) (hi : f.Inv) (_hp : f.isLive p = true) (_hc : f.isLive c = true)
+    (h : (f.prepend p c).2 = .err e) : (f.prepend p c).1 = f :=
+  (C06_prepend f p c hi _hp _hc).atomic e h
+
+theorem C06_no_panic_prepend (f : Forest) (p c : Nat) (hi : f.Inv) (_hp : f.isLive p = true) (_hc : f.isLive c = true) :
+    (f.prepend p c).2 ≠ .panic :=
+  (C06_prepend f p c hi _hp _hc).noPanic
+
+theorem C06_corrupt_unreachable_prepend (f : Forest) (p c : Nat) (hi : f.Inv) (_hp : f.isLive p = true) (_hc : f.isLive c = true) :
+    (f.prepend p c).1.corrupt = false :=
+  (C06_prepend f p c hi _hp _hc).notCorrupt
+
+/-- `insertAfter`: refused by the argument checks with the forest unchanged, or carried out; the indextree `checked_*` call cannot be refused (no late `NodeError`), nothing panics, `corrupt` stays false. -/
+theorem C06_insertAfter (f : Forest) (r n : Nat) (hi : f.Inv) (_hr : f.isLive r = true) (_hn : f.isLive n = true) :
+    Forest.C06Clauses f (f.insertAfter r n) :=
+  (Forest.insertAfter_outcome hi.toW r n).clauses hi.notCorrupt
+
+theorem C06_insertAfter_atomic (f : Forest) (r n : Nat) (e : XotError) (hi : f.Inv) (_hr : f.isLive r = true) (_hn : f.isLive n = true)
+    (h : (f.insertAfter r n).2 = .err e) : (f.insertAfter r n).1 = f :=
+  (C06_insertAfter f r n hi _hr _hn).atomic e h
+
+theorem C06_no_panic_insertAfter (f : Forest) (r n : Nat) (hi : f.Inv) (_hr : f.isLive r = true) (_hn : f.isLive n = true) :
+    (f.insertAfter r n).2 ≠ .panic :=
+  (C06_insertAfter f r n hi _hr _hn).noPanic
+
+theorem C06_corrupt_unreachable_insertAfter (f : Forest) (r n : Nat) (hi : f.Inv) (_hr : f.isLive r = true) (_hn : f.isLive n = true) :
+    (f.insertAfter r n).1.corrupt = false :=
+  (C06_insertAfter f r n hi _hr _hn).notCorrupt
+
+/-- `insertBefore`: refused by the argument checks with the forest unchanged, or carried out; the indextree `checked_*` call cannot be refused (no late `NodeError`), nothing panics, `corrupt` stays false. -/
+theorem C06_insertBefore (f : Forest) (r n : Nat) (hi : f.Inv) (_hr : f.isLive r = true) (_hn : f.isLive n = true) :
+    Forest.C06Clauses f (f.insertBefore r n) :=
+  (Forest.insertBefore_outcome hi.toW r n).clauses hi.notCorrupt
+
+theorem C06_insertBefore_atomic (f : Forest) (r n : Nat) (e : XotError) (hi : f.Inv) (_hr : f.isLive r = true) (_hn : f.isLive n = true)
+    (h : (f.insertBefore r n).2 = .err e) : (f.insertBefore r n).1 = f :=
+  (C06_insertBefore f r n hi _hr _hn).atomic e h
+
+theorem C06_no_panic_insertBefore (f : Forest) (r n : Nat) (hi : f.Inv) (_hr : f.isLive r = true) (_hn : f.isLive n = true) :
+    (f.insertBefore r n).2 ≠ .panic :=
+  (C06_insertBefore f r n hi _hr _hn).noPanic
+
+theorem C06_corrupt_unreachable_insertBefore (f : Forest) (r n : Nat) (hi : f.Inv) (_hr : f.isLive r = true) (_hn : f.isLive n = true) :
+    (f.insertBefore r n).1.corrupt = false :=
+  (C06_insertBefore f r n hi _hr _hn).notCorrupt
+
+/-- `detach` always succeeds. -/
+theorem C06_detach (f : Forest) (n : Nat) (hi : f.Inv) (_hn : f.isLive n = true) :
+    Forest.C06Clauses f (f.detach n) :=
+  (Forest.detach_ok hi.toW n).clauses hi.notCorrupt
+
+theorem C06_detach_atomic (f : Forest) (n : Nat) (e : XotError) (hi : f.Inv) (_hn : f.isLive n = true)
+    (h : (f.detach n).2 = .err e) : (f.detach n).1 = f :=
+  (C06_detach f n hi _hn).atomic e h
+
+theorem C06_no_panic_detach (f : Forest) (n : Nat) (hi : f.Inv) (_hn : f.isLive n = true) :
+    (f.detach n).2 ≠ .panic :=
+  (C06_detach f n hi _hn).noPanic
+
+theorem C06_corrupt_unreachable_detach (f : Forest) (n : Nat) (hi : f.Inv) (_hn : f.isLive n = true) :
+    (f.detach n).1.corrupt = false :=
+  (C06_detach f n hi _hn).notCorrupt
+
+/-- `remove` always succeeds. -/
+theorem C06_remove (f : Forest) (n : Nat) (hi : f.Inv) (_hn : f.isLive n = true) :
+    Forest.C06Clauses f (f.remove n) :=
+  (Forest.remove_ok hi.toW n).clauses hi.notCorrupt
+
+theorem C06_remove_atomic (f : Forest) (n : Nat) (e : XotError) (hi : f.Inv) (_hn : f.isLive n = true)
+    (h : (f.remove n).2 = .err e) : (f.remove n).1 = f :=
+  (C06_remove f n hi _hn).atomic e h
+
+theorem C06_no_panic_remove (f : Forest) (n : Nat) (hi : f.Inv) (_hn : f.isLive n = true) :
+    (f.remove n).2 ≠ .panic :=
+  (C06_remove f n hi _hn).noPanic
+
+theorem C06_corrupt_unreachable_remove (f : Forest) (n : Nat) (hi : f.Inv) (_hn : f.isLive n = true) :
+    (f.remove n).1.corrupt = false :=
+  (C06_remove f n hi _hn).notCorrupt
+
+/-- `replace`: refused with the forest unchanged (the replaced subtree is only dropped after all checks), or carried out. -/
+theorem C06_replace (f : Forest) (a b : Nat) (hi : f.Inv) (_ha : f.isLive a = true) (_hb : f.isLive b = true) :
+    Forest.C06Clauses f (f.replace a b) :=
+  Forest.clauses_of_outcome hi.notCorrupt (Forest.replace_outcome hi.toW a b)
+
+theorem C06_replace_atomic (f : Forest) (a b : Nat) (e : XotError) (hi : f.Inv) (_ha : f.isLive a = true) (_hb : f.isLive b = true)
+    (h : (f.replace a b).2 = .err e) : (f.replace a b).1 = f :=
+  (C06_replace f a b hi _ha _hb).atomic e h
+
+theorem C06_no_panic_replace (f : Forest) (a b : Nat) (hi : f.Inv) (_ha : f.isLive a = true) (_hb : f.isLive b = true) :
+    (f.replace a b).2 ≠ .panic :=
+  (C06_replace f a b hi _ha _hb).noPanic
+
+theorem C06_corrupt_unreachable_replace (f : Forest) (a b : Nat) (hi : f.Inv) (_ha : f.isLive a = true) (_hb : f.isLive b = true) :
+    (f.replace a b).1.corrupt = false :=
+  (C06_replace f a b hi _ha _hb).notCorrupt
+
+/-- `element_unwrap`: refused with the forest unchanged, or carried out; `last_child` is `Some` whenever `first_child` is (child ordering), so the `unwrap` does not panic. -/
+theorem C06_elementUnwrap (f : Forest) (n : Nat) (hi : f.Inv) (_hn : f.isLive n = true) :
+    Forest.C06Clauses f (f.elementUnwrap n) :=
+  Forest.elementUnwrap_clauses hi n
+
+theorem C06_elementUnwrap_atomic (f : Forest) (n : Nat) (e : XotError) (hi : f.Inv) (_hn : f.isLive n = true)
+    (h : (f.elementUnwrap n).2 = .err e) : (f.elementUnwrap n).1 = f :=
+  (C06_elementUnwrap f n hi _hn).atomic e h
+
+theorem C06_no_panic_elementUnwrap (f : Forest) (n : Nat) (hi : f.Inv) (_hn : f.isLive n = true) :
+    (f.elementUnwrap n).2 ≠ .panic :=
+  (C06_elementUnwrap f n hi _hn).noPanic
+
+theorem C06_corrupt_unreachable_elementUnwrap (f : Forest) (n : Nat) (hi : f.Inv) (_hn : f.isLive n = true) :
+    (f.elementUnwrap n).1.corrupt = false :=
+  (C06_elementUnwrap f n hi _hn).notCorrupt
+
+/-- `text_mut(n).set(s)`. -/
+theorem C06_setText (f : Forest) (s : Str) (n : Nat) (hi : f.Inv) (_hn : f.isLive n = true) :
+    Forest.C06Clauses f (f.setText n s) :=
+  Forest.clauses_of_outcome hi.notCorrupt (Forest.setText_outcome hi.toW n s)
+
+theorem C06_setText_atomic (f : Forest) (s : Str) (n : Nat) (e : XotError) (hi : f.Inv) (_hn : f.isLive n = true)
+    (h : (f.setText n s).2 = .err e) : (f.setText n s).1 = f :=
+  (C06_setText f s n hi _hn).atomic e h
+
+theorem C06_no_panic_setText (f : Forest) (s : Str) (n : Nat) (hi : f.Inv) (_hn : f.isLive n = true) :
+    (f.setText n s).2 ≠ .panic :=
+  (C06_setText f s n hi _hn).noPanic
+
+theorem C06_corrupt_unreachable_setText (f : Forest) (s : Str) (n : Nat) (hi : f.Inv) (_hn : f.isLive n = true) :
+    (f.setText n s).1.corrupt = false :=
+  (C06_setText f s n hi _hn).notCorrupt
+
+/-- `processing_instruction_mut(n).set_data(d)`. -/
+theorem C06_setPiData (f : Forest) (d : Option Str) (n : Nat) (hi : f.Inv) (_hn : f.isLive n = true) :
+    Forest.C06Clauses f (f.setPiData n d) :=
+  Forest.clauses_of_outcome hi.notCorrupt (Forest.setPiData_outcome hi.toW n d)
+
+theorem C06_setPiData_atomic (f : Forest) (d : Option Str) (n : Nat) (e : XotError) (hi : f.Inv) (_hn : f.isLive n = true)
+    (h : (f.setPiData n d).2 = .err e) : (f.setPiData n d).1 = f :=
+  (C06_setPiData f d n hi _hn).atomic e h
+
+theorem C06_no_panic_setPiData (f : Forest) (d : Option Str) (n : Nat) (hi : f.Inv) (_hn : f.isLive n = true) :
+    (f.setPiData n d).2 ≠ .panic :=
+  (C06_setPiData f d n hi _hn).noPanic
+
+theorem C06_corrupt_unreachable_setPiData (f : Forest) (d : Option Str) (n : Nat) (hi : f.Inv) (_hn : f.isLive n = true) :
+    (f.setPiData n d).1.corrupt = false :=
+  (C06_setPiData f d n hi _hn).notCorrupt
+
+/-- `comment_mut(n).set(s)`: the only errors (`InvalidComment`, not a comment) leave the forest
+    unchanged. -/
+theorem C06_setComment (f : Forest) (s : Str) (n : Nat) (hi : f.Inv) (_hn : f.isLive n = true) :
+    Forest.C06Clauses f (f.setComment n s) := by
+  rcases Forest.setComment_outcome hi.toW n s with ⟨e, h⟩ | h
+  · rw [h]; exact Forest.clauses_refused hi.notCorrupt e
+  · exact h.clauses hi.notCorrupt
+
+/-- `element_wrap`: refused with the forest unchanged (nothing is detached before the checks), or carried out: the append into the fresh wrapper and the insertion of the wrapper at the old position cannot fail. -/
+theorem C06_elementWrap (f : Forest) (n name : Nat) (hi : f.Inv) (_hn : f.isLive n = true) :
+    Forest.C06Clauses f ((f.elementWrap n name).1, (f.elementWrap n name).2.1) :=
+  Forest.clauses_of_outcome3 hi.notCorrupt (Forest.elementWrap_outcome hi.toW n name)
+
+theorem C06_elementWrap_atomic (f : Forest) (n name : Nat) (e : XotError) (hi : f.Inv) (_hn : f.isLive n = true)
+    (h : (f.elementWrap n name).2.1 = .err e) : (f.elementWrap n name).1 = f :=
+  (C06_elementWrap f n name hi _hn).atomic e h
+
+theorem C06_no_panic_elementWrap (f : Forest) (n name : Nat) (hi : f.Inv) (_hn : f.isLive n = true) :
+    (f.elementWrap n name).2.1 ≠ .panic :=
+  (C06_elementWrap f n name hi _hn).noPanic
+
+theorem C06_corrupt_unreachable_elementWrap (f : Forest) (n name : Nat) (hi : f.Inv) (_hn : f.isLive n = true) :
+    (f.elementWrap n name).1.corrupt = false :=
+  (C06_elementWrap f n name hi _hn).notCorrupt
+
+/-- `any_append`. -/
+theorem C06_anyAppend (f : Forest) (p c : Nat) (hi : f.Inv) (_hp : f.isLive p = true) (_hc : f.isLive c = true) :
+    Forest.C06Clauses f ((f.anyAppend p c).1, (f.anyAppend p c).2.1) :=
+  Forest.clauses_of_outcome3 hi.notCorrupt (Forest.anyAppend_outcome hi.toW p c _hc)
+
+theorem C06_anyAppend_atomic (f : Forest) (p c : Nat) (e : XotError) (hi : f.Inv) (_hp : f.isLive p = true) (_hc : f.isLive c = true)
+    (h : (f.anyAppend p c).2.1 = .err e) : (f.anyAppend p c).1 = f :=
+  (C06_anyAppend f p c hi _hp _hc).atomic e h
+
+theorem C06_no_panic_anyAppend (f : Forest) (p c : Nat) (hi : f.Inv) (_hp : f.isLive p = true) (_hc : f.isLive c = true) :
+    (f.anyAppend p c).2.1 ≠ .panic :=
+  (C06_anyAppend f p c hi _hp _hc).noPanic
+
+theorem C06_corrupt_unreachable_anyAppend (f : Forest) (p c : Nat) (hi : f.Inv) (_hp : f.isLive p = true) (_hc : f.isLive c = true) :
+    (f.anyAppend p c).1.corrupt = false :=
+  (C06_anyAppend f p c hi _hp _hc).notCorrupt
+
+/-- `append_attribute_node` / `append_namespace_node`: placing the node at the insertion point of the map is never refused by indextree. -/
+theorem C06_appendEntryNode (f : Forest) (k : Forest.MapKind) (p c : Nat) (hi : f.Inv) (_hp : f.isLive p = true) (_hc : f.isLive c = true) :
+    Forest.C06Clauses f ((f.appendEntryNode k p c).1, (f.appendEntryNode k p c).2.1) :=
+  Forest.clauses_of_outcome3 hi.notCorrupt (Forest.appendEntryNode_outcome hi.toW k p c _hc)
+
+theorem C06_appendEntryNode_atomic (f : Forest) (k : Forest.MapKind) (p c : Nat) (e : XotError) (hi : f.Inv) (_hp : f.isLive p = true) (_hc : f.isLive c = true)
+    (h : (f.appendEntryNode k p c).2.1 = .err e) : (f.appendEntryNode k p c).1 = f :=
+  (C06_appendEntryNode f k p c hi _hp _hc).atomic e h
+
+theorem C06_no_panic_appendEntryNode (f : Forest) (k : Forest.MapKind) (p c : Nat) (hi : f.Inv) (_hp : f.isLive p = true) (_hc : f.isLive c = true) :
+    (f.appendEntryNode k p c).2.1 ≠ .panic :=
+  (C06_appendEntryNode f k p c hi _hp _hc).noPanic
+
+theorem C06_corrupt_unreachable_appendEntryNode (f : Forest) (k : Forest.MapKind) (p c : Nat) (hi : f.Inv) (_hp : f.isLive p = true) (_hc : f.isLive c = true) :
+    (f.appendEntryNode k p c).1.corrupt = false :=
+  (C06_appendEntryNode f k p c hi _hp _hc).notCorrupt
+
+/-- `attributes_mut(p).insert(..)` / `namespaces_mut(p).insert(..)`: on an element it never panics (`mapPlace` cannot be refused: the insertion point is a child of the element, the new node a fresh root), never errs, never corrupts; on a non-element it is the documented panic with nothing changed. -/
+theorem C06_mapInsert (f : Forest) (k : Forest.MapKind) (entry : Value) (p : Nat) (hi : f.Inv) : Forest.ElementOnly f p (f.mapInsert k p entry) :=
+  Forest.elementOnly_of hi.notCorrupt (Forest.mapInsert_outcome hi.toW k p entry)
+
+/-- The documented panic, and only that. -/
+theorem C06_panic_mapInsert_iff (f : Forest) (k : Forest.MapKind) (entry : Value) (p : Nat) (hi : f.Inv) :
+    (f.mapInsert k p entry).2 = .panic ↔ f.isElement p = false :=
+  (C06_mapInsert f k entry p hi).panic_iff
+
+theorem C06_corrupt_unreachable_mapInsert (f : Forest) (k : Forest.MapKind) (entry : Value) (p : Nat) (hi : f.Inv) :
+    (f.mapInsert k p entry).1.corrupt = false :=
+  (C06_mapInsert f k entry p hi).notCorrupt hi.notCorrupt
+
+/-- `attributes_mut(p).remove(key)`. -/
+theorem C06_mapRemove (f : Forest) (k : Forest.MapKind) (p key : Nat) (hi : f.Inv) : Forest.ElementOnly f p (f.mapRemove k p key) :=
+  Forest.elementOnly_of hi.notCorrupt (Forest.mapRemove_outcome hi.toW k p key)
+
+/-- The documented panic, and only that. -/
+theorem C06_panic_mapRemove_iff (f : Forest) (k : Forest.MapKind) (p key : Nat) (hi : f.Inv) :
+    (f.mapRemove k p key).2 = .panic ↔ f.isElement p = false :=
+  (C06_mapRemove f k p key hi).panic_iff
+
+theorem C06_corrupt_unreachable_mapRemove (f : Forest) (k : Forest.MapKind) (p key : Nat) (hi : f.Inv) :
+    (f.mapRemove k p key).1.corrupt = false :=
+  (C06_mapRemove f k p key hi).notCorrupt hi.notCorrupt
+
+/-- `attributes_mut(p).clear()`. -/
+theorem C06_mapClear (f : Forest) (k : Forest.MapKind) (p : Nat) (hi : f.Inv) : Forest.ElementOnly f p (f.mapClear k p) :=
+  Forest.elementOnly_of hi.notCorrupt (Forest.mapClear_outcome hi.toW k p)
+
+/-- The documented panic, and only that. -/
+theorem C06_panic_mapClear_iff (f : Forest) (k : Forest.MapKind) (p : Nat) (hi : f.Inv) :
+    (f.mapClear k p).2 = .panic ↔ f.isElement p = false :=
+  (C06_mapClear f k p hi).panic_iff
+
+theorem C06_corrupt_unreachable_mapClear (f : Forest) (k : Forest.MapKind) (p : Nat) (hi : f.Inv) :
+    (f.mapClear k p).1.corrupt = false :=
+  (C06_mapClear f k p hi).notCorrupt hi.notCorrupt
+
+/-- `set_element_name`. -/
+theorem C06_setElementName (f : Forest) (n name : Nat) (hi : f.Inv) : Forest.ElementOnly f n (f.setElementName n name) :=
+  Forest.elementOnly_of hi.notCorrupt (Forest.setElementName_outcome hi.toW n name)
+
+/-- The documented panic, and only that. -/
+theorem C06_panic_setElementName_iff (f : Forest) (n name : Nat) (hi : f.Inv) :
+    (f.setElementName n name).2 = .panic ↔ f.isElement n = false :=
+  (C06_setElementName f n name hi).panic_iff
+
+theorem C06_corrupt_unreachable_setElementName (f : Forest) (n name : Nat) (hi : f.Inv) :
+    (f.setElementName n name).1.corrupt = false :=
+  (C06_setElementName f n name hi).notCorrupt hi.notCorrupt
+
+
+/-- `text_content_mut(n)` + `set(s)`: refused with the forest unchanged, or carried out: on an
+    element without normal children the fresh text node is appended and found again as the first
+    child, so neither `unwrap` panics. -/
+theorem C06_textContentSet (f : Forest) (s : Str) (n : Nat) (hi : f.Inv) (_hn : f.isLive n = true) :
+    Forest.C06Clauses f (f.textContentSet n s) :=
+  Forest.clauses_of_outcome hi.notCorrupt (Forest.textContentSet_outcome hi.toW n s)
+
+theorem C06_textContentSet_atomic (f : Forest) (s : Str) (n : Nat) (e : XotError) (hi : f.Inv)
+    (_hn : f.isLive n = true) (h : (f.textContentSet n s).2 = .err e) : (f.textContentSet n s).1 = f :=
+  (C06_textContentSet f s n hi _hn).atomic e h
+
+theorem C06_no_panic_textContentSet (f : Forest) (s : Str) (n : Nat) (hi : f.Inv)
+    (_hn : f.isLive n = true) : (f.textContentSet n s).2 ≠ .panic :=
+  (C06_textContentSet f s n hi _hn).noPanic
+
+theorem C06_corrupt_unreachable_textContentSet (f : Forest) (s : Str) (n : Nat) (hi : f.Inv)
+    (_hn : f.isLive n = true) : (f.textContentSet n s).1.corrupt = false :=
+  (C06_textContentSet f s n hi _hn).notCorrupt
+
+/-- `clone_node` of a live node returns a node: none of the `any_append(..).unwrap()` calls of the
+    edge replay fails, and the scratch element has a first child. -/
+theorem C06_no_panic_cloneNode (f : Forest) (n : Nat) (hi : f.Inv) (hn : f.isLive n = true) :
+    (f.cloneNode n).2 ≠ none :=
+  (Forest.cloneNode_spec hi hn).1
+
+/-- ... and stays inside the list semantics: the scratch element spliced out at the end is a
+    root with exactly one child. -/
+theorem C06_corrupt_unreachable_cloneNode (f : Forest) (n : Nat) (hi : f.Inv)
+    (hn : f.isLive n = true) : (f.cloneNode n).1.corrupt = false :=
+  (Forest.cloneNode_spec hi hn).2
+
+theorem C06_corrupt_unreachable_removeInsignificantWhitespace (f : Forest) (n : Nat) (hi : f.Inv) :
+    (f.removeInsignificantWhitespace n).corrupt = false := by
+  rw [(Forest.removeInsignificantWhitespace_spec hi.toW n).2]; exact hi.notCorrupt
+
+/-! ## The property for every call at once
+
+`Forest.Call` (Model/FatomSpec.lean) lists the calls of the mutating API with their arguments,
+`Call.run` is the model's transition, `Call.liveArgs` says that all node arguments are live,
+`Call.documentedPanic` is the documented panic of the element-only accessors on a non-element. -/
+
+/-- ⟦C06_atomic⟧ A call that returns an error has changed nothing. -/
+theorem C06_atomic (f : Forest) (c : Forest.Call) (e : XotError) (hi : f.Inv) (hl : c.liveArgs f)
+    (h : (c.run f).2 = .err e) : (c.run f).1 = f := by
+  rcases Forest.call_clauses hi c hl with ⟨_, h'⟩ | ⟨_, h'⟩
+  · exact h'.atomic e h
+  · rw [h']
+
+/-- ⟦C06_nopanic⟧ The only panics are the documented ones, and they change nothing. -/
+theorem C06_nopanic (f : Forest) (c : Forest.Call) (hi : f.Inv) (hl : c.liveArgs f)
+    (h : (c.run f).2 = .panic) : c.documentedPanic f = true ∧ (c.run f).1 = f := by
+  rcases Forest.call_clauses hi c hl with ⟨_, h'⟩ | ⟨h1, h'⟩
+  · exact absurd h h'.noPanic
+  · exact ⟨h1, by rw [h']⟩
+
+/-- The documented panic does happen (so `C06_nopanic` is an equivalence). -/
+theorem C06_documentedPanic (f : Forest) (c : Forest.Call) (hi : f.Inv) (hl : c.liveArgs f)
+    (h : c.documentedPanic f = true) : (c.run f).2 = .panic := by
+  rcases Forest.call_clauses hi c hl with ⟨h1, _⟩ | ⟨_, h'⟩
+  · rw [h1] at h; cases h
+  · rw [h']
+
+/-- ⟦C06_corrupt_unreachable⟧ No call with live arguments uses an indextree primitive outside
+    its list semantics. -/
+theorem C06_corrupt_unreachable (f : Forest) (c : Forest.Call) (hi : f.Inv) (hl : c.liveArgs f) :
+    (c.run f).1.corrupt = false := by
+  rcases Forest.call_clauses hi c hl with ⟨_, h'⟩ | ⟨_, h'⟩
+  · exact h'.notCorrupt
+  · rw [h']; exact hi.notCorrupt
+
+/-! ### Non-vacuity: a concrete forest satisfying the invariant, with refused and accepted calls -/
+
+/-- `<doc><e xmlns:p=".." a="v">x</e></doc>` plus an unattached comment. -/
+def C06_sample : Forest :=
+  { roots := [.node 0 .document [.node 1 (.element 2) [.node 2 (.namespace 0 2) [],
+      .node 3 (.attribute 3 ['v']) [], .node 4 (.text ['x']) []]], .node 5 (.comment ['c']) []],
+    next := 6 }
+
+example : C06_sample.Inv := (Forest.inv_iff _).1 (by decide)
+example : C06_sample.isLive 1 = true ∧ C06_sample.isLive 4 = true ∧ C06_sample.isLive 5 = true := by decide
+/-- a refused call (append under a text node) -/
+example : (C06_sample.append 4 5).2 = .err .invalidOperation := by decide
+/-- a refused call (append an element into itself) -/
+example : (C06_sample.append 1 1).2 = .err .invalidOperation := by decide
+/-- accepted calls -/
+example : (C06_sample.append 1 5).2 = .ok := by decide
+example : (C06_sample.insertBefore 4 5).2 = .ok := by decide
+example : (C06_sample.replace 4 5).2 = .ok := by decide
+example : (C06_sample.elementWrap 4 7).2.1 = .ok := by decide
+example : (C06_sample.elementUnwrap 1).2 = .ok := by decide
+/-- the documented panic -/
+example : (C06_sample.mapInsert .attributes 4 (.attribute 9 [])).2 = .panic := by decide
+example : (C06_sample.mapInsert .attributes 1 (.attribute 9 [])).2 = .ok := by decide
+example : (C06_sample.textContentSet 1 ['y']).2 = .ok := by decide
+example : (C06_sample.cloneNode 5).2 = some 6 := by decide
+example : (({ roots := [.node 0 (.element 1) [.node 1 (.comment ['a']) []]], next := 2 } : Forest).cloneNode 0).2 = some 3 := by decide
+example : (Forest.Call.replace 4 5).liveArgs C06_sample := by
+  intro x hx; simp [Forest.Call.args] at hx; rcases hx with h | h <;> subst h <;> decide
 
 end XotModel.Props
